@@ -120,3 +120,183 @@ Proof.
   assert (Hs0 : 0 <= zlen buf - 8) by lia.
   pose proof (dloop_count _ _ _ _ _ _ _ _ Hd Hs0 E) as C. rewrite zlen_nil in C. lia.
 Qed.
+
+(* ====================================================================================================
+   C15: what TECMP conversion returns
+   ==================================================================================================== *)
+Lemma rds_eq l off n : 0 <= off -> 0 <= n -> off + n <= zlen l -> rds l off n = Some (take n (drop off l)).
+Proof.
+  intros H1 H2 H3. unfold rds.
+  destruct (Z.leb_spec 0 off); [|lia]. destruct (Z.leb_spec 0 n); [|lia]. destruct (Z.leb_spec (off + n) (zlen l)); [|lia]. reflexivity.
+Qed.
+
+(* the header as the decoder reads it *)
+Definition t_hd (buf : list Z) : list Z := take 28 (drop 0 buf).
+Definition t_pd (buf : list Z) : list Z := drop 28 buf.
+Definition t_accepts (buf : list Z) : Prop :=
+  28 <= zlen buf /\ u16 (t_hd buf) 24 <> 0 /\ 28 + u16 (t_hd buf) 24 <= zlen buf /\
+  u8 (t_hd buf) 5 <> 255 /\ u8 (t_hd buf) 6 + 256 * u8 (t_hd buf) 7 <> 255.
+
+Ltac t_open buf Hacc :=
+  destruct Hacc as (Hsz & Hpl & Hfit & Hmt & Hdt);
+  unfold tecmp_decode;
+  destruct (Z.ltb_spec (zlen buf) 28); [lia|];
+  rewrite (rds_eq buf 0 28) by lia; cbn [of_opt rbind];
+  change (take 28 (drop 0 buf)) with (t_hd buf);
+  destruct (Z.eqb_spec (u16 (t_hd buf) 24) 0); [contradiction|];
+  destruct (Z.ltb_spec (zlen buf) (28 + u16 (t_hd buf) 24)); [lia|];
+  destruct (Z.eqb_spec (u8 (t_hd buf) 5) 255); [contradiction|];
+  destruct (Z.eqb_spec (u8 (t_hd buf) 6 + 256 * u8 (t_hd buf) 7) 255); [contradiction|]; cbn [orb].
+
+(* messages that are not accepted at all, of unsupported kinds, or whose inner lengths do not fit yield no packet *)
+Theorem tecmp_rejected buf : ~ t_accepts buf -> tecmp_decode buf = Ok [].
+Proof.
+  intros H. unfold tecmp_decode.
+  destruct (Z.ltb_spec (zlen buf) 28); [reflexivity|].
+  rewrite (rds_eq buf 0 28) by lia. cbn [of_opt rbind]. change (take 28 (drop 0 buf)) with (t_hd buf).
+  destruct (Z.eqb_spec (u16 (t_hd buf) 24) 0); [reflexivity|].
+  destruct (Z.ltb_spec (zlen buf) (28 + u16 (t_hd buf) 24)); [reflexivity|].
+  destruct (Z.eqb_spec (u8 (t_hd buf) 5) 255); [reflexivity|].
+  destruct (Z.eqb_spec (u8 (t_hd buf) 6 + 256 * u8 (t_hd buf) 7) 255); [reflexivity|].
+  exfalso. apply H. unfold t_accepts. repeat split; assumption.
+Qed.
+
+Theorem tecmp_unsupported buf :
+  let mt := u8 (t_hd buf) 5 in let dt := u16 (t_hd buf) 6 in
+  (mt <> 1 /\ mt <> 2 /\ (mt <> 3 \/ (dt <> 2 /\ dt <> 3 /\ dt <> 4))) -> tecmp_decode buf = Ok [].
+Proof.
+  intros mt dt (H1 & H2 & H3). unfold tecmp_decode.
+  destruct (Z.ltb_spec (zlen buf) 28); [reflexivity|].
+  rewrite (rds_eq buf 0 28) by lia. cbn [of_opt rbind]. change (take 28 (drop 0 buf)) with (t_hd buf).
+  fold mt dt.
+  destruct (u16 (t_hd buf) 24 =? 0); [reflexivity|]. destruct (zlen buf <? 28 + u16 (t_hd buf) 24); [reflexivity|].
+  destruct ((mt =? 255) || _); [reflexivity|].
+  destruct (Z.eqb_spec mt 1); [contradiction|]. destruct (Z.eqb_spec mt 2); [contradiction|].
+  destruct (Z.eqb_spec mt 3) as [E3|]; [|reflexivity].
+  destruct H3 as [H3|(D2 & D3 & D4)]; [contradiction|].
+  destruct (Z.eqb_spec dt 2); [contradiction|]. destruct (Z.eqb_spec dt 3); [contradiction|]. cbn [orb].
+  destruct (Z.eqb_spec dt 4); [contradiction|]. reflexivity.
+Qed.
+
+(* CAN / CAN-FD data: one packet; device id, timestamp and interface id are the header's big-endian fields, the payload carries the
+   arbitration id, the data length, the DLC code and exactly the announced data bytes *)
+Theorem tecmp_can buf : bytes_ok buf -> t_accepts buf ->
+  u8 (t_hd buf) 5 = 3 -> (u16 (t_hd buf) 6 = 2 \/ u16 (t_hd buf) 6 = 3) ->
+  let pd := t_pd buf in let psize := zlen buf - 28 in
+  5 <= psize -> u8 (take 5 (drop 0 pd)) 4 <= psize - 5 ->
+  let dlc := u8 (take 5 (drop 0 pd)) 4 in
+  exists crc, tecmp_decode buf =
+    Ok [tecmp_packet (u8 (t_hd buf) 1) (u64 (t_hd buf) 16) (u32 (t_hd buf) 12)
+          {| pl_type := if 8 <? dlc then 258 else 257;
+             pl_data := [0;0;0;0] ++ be_enc 4 (u32 (take 5 (drop 0 pd)) 0) ++ be_enc 4 crc ++ [0;0] ++ [encode_dlc dlc; dlc] ++ take dlc (drop 5 pd) |}].
+Proof.
+  intros Hb Hacc Hm Hd pd psize H5 Hdl dlc.
+  assert (Hpd : zlen pd = psize) by (unfold pd, t_pd, psize; apply zlen_drop; destruct Hacc; lia).
+  assert (Hdn : 0 <= dlc).
+  { unfold dlc. apply u8_nonneg. apply bytes_ok_take, bytes_ok_drop, bytes_ok_drop, Hb. }
+  t_open buf Hacc. rewrite Hm. cbn [Z.eqb Pos.eqb].
+  assert (((u16 (t_hd buf) 6 =? 2) || (u16 (t_hd buf) 6 =? 3)) = true) as -> by (destruct Hd as [-> | ->]; reflexivity).
+  fold psize. destruct (Z.ltb_spec psize 5); [lia|].
+  fold (t_pd buf). fold pd. rewrite (rds_eq pd 0 5) by lia. cbn [of_opt rbind]. fold dlc.
+  destruct (Z.ltb_spec (psize - 5) dlc); [lia|].
+  rewrite (rds_eq pd 5 dlc) by lia. cbn [of_opt rbind].
+  destruct (Z.ltb_spec psize (5 + dlc + 3)); cbn [rbind].
+  - exists 0. destruct (8 <? dlc); reflexivity.
+  - rewrite (rds_eq pd (5 + dlc) 3) by lia. cbn [of_opt rbind].
+    destruct (8 <? dlc); eexists; reflexivity.
+Qed.
+
+(* LIN data *)
+Theorem tecmp_lin buf : bytes_ok buf -> t_accepts buf ->
+  u8 (t_hd buf) 5 = 3 -> u16 (t_hd buf) 6 = 4 ->
+  let pd := t_pd buf in let psize := zlen buf - 28 in
+  2 <= psize -> u8 (take 2 (drop 0 pd)) 1 <= psize - 2 ->
+  let len := u8 (take 2 (drop 0 pd)) 1 in let pid := u8 (take 2 (drop 0 pd)) 0 in
+  exists cs, tecmp_decode buf =
+    Ok [tecmp_packet (u8 (t_hd buf) 1) (u64 (t_hd buf) 16) (u32 (t_hd buf) 12)
+          {| pl_type := 259; pl_data := [0;0;0;0] ++ [Z.land pid 63; 0; cs; len] ++ take len (drop 2 pd) |}] /\
+    (2 + len < psize -> cs = u8 (take 1 (drop (2 + len) pd)) 0).
+Proof.
+  intros Hb Hacc Hm Hd pd psize H2 Hdl len pid.
+  assert (Hpd : zlen pd = psize) by (unfold pd, t_pd, psize; apply zlen_drop; destruct Hacc; lia).
+  assert (Hdn : 0 <= len).
+  { unfold len. apply u8_nonneg. apply bytes_ok_take, bytes_ok_drop, bytes_ok_drop, Hb. }
+  t_open buf Hacc. rewrite Hm, Hd. cbn [Z.eqb Pos.eqb orb].
+  fold psize. destruct (Z.ltb_spec psize 2); [lia|].
+  fold (t_pd buf). fold pd. rewrite (rds_eq pd 0 2) by lia. cbn [of_opt rbind]. fold len pid.
+  destruct (Z.ltb_spec (psize - 2) len); [lia|].
+  rewrite (rds_eq pd 2 len) by lia. cbn [of_opt rbind].
+  destruct (Z.leb_spec psize (2 + len)); cbn [rbind].
+  - exists 0. split; [reflexivity|lia].
+  - rewrite (rds_eq pd (2 + len) 1) by lia. cbn [of_opt rbind]. eexists. split; [reflexivity|]. intros _. reflexivity.
+Qed.
+
+(* capture-module status: decimal serial number and "vX.Y" / "vX.Y.Z" strings *)
+Theorem tecmp_cm buf : bytes_ok buf -> t_accepts buf -> u8 (t_hd buf) 5 = 1 ->
+  let pd := t_pd buf in 36 <= zlen buf - 28 ->
+  let h := take 36 (drop 0 pd) in
+  tecmp_decode buf =
+    Ok [tecmp_packet (u8 (t_hd buf) 1) (u64 (t_hd buf) 16) (u32 (t_hd buf) 12)
+          {| pl_type := 769;
+             pl_data := zeros 26 ++ cm_string [] ++ cm_string (dec_str (u32 h 8)) ++
+                        cm_string ([V] ++ dec_str (u8 h 16) ++ [DOT] ++ dec_str (u8 h 17)) ++
+                        cm_string ([V] ++ dec_str (u8 h 13) ++ [DOT] ++ dec_str (u8 h 14) ++ [DOT] ++ dec_str (u8 h 15)) ++ [0; 0] |}].
+Proof.
+  intros Hb Hacc Hm pd H36 h.
+  assert (Hpd : zlen pd = zlen buf - 28) by (unfold pd, t_pd; apply zlen_drop; destruct Hacc; lia).
+  t_open buf Hacc. rewrite Hm. cbn [Z.eqb Pos.eqb].
+  destruct (Z.ltb_spec (zlen buf - 28) 36); [lia|].
+  fold (t_pd buf). fold pd. rewrite (rds_eq pd 0 36) by lia. cbn [of_opt rbind]. reflexivity.
+Qed.
+
+(* bus status: one interface-status packet per complete 12-byte entry, carrying that entry's big-endian fields *)
+Lemma bus_entries_spec : forall fuel pd psize off dev ts,
+  psize = zlen pd -> 0 <= off -> Z.max 0 (psize - off) / 12 < Z.of_nat fuel ->
+  exists ps, bus_entries fuel pd psize off dev ts = Ok ps /\
+    zlen ps = Z.max 0 (psize - off) / 12 /\
+    forall i, (i < length ps)%nat ->
+      let e := take 12 (drop (off + 12 * Z.of_nat i) pd) in
+      nth i ps default_packet =
+        tecmp_packet dev ts (be_dec (take 4 e))
+          {| pl_type := 770; pl_data := be_enc 4 (be_dec (take 4 e)) ++ be_enc 4 (be_dec (take 4 (drop 4 e))) ++ zeros 12 ++
+                                        be_enc 4 (be_dec (take 4 (drop 8 e))) ++ zeros 16 |}.
+Proof.
+  induction fuel as [|fuel IH]; intros pd psize off dev ts Hp Ho Hf.
+  - exfalso. assert (0 <= Z.max 0 (psize - off) / 12) by (apply Z.div_pos; lia). cbn in Hf. lia.
+  - cbn [bus_entries].
+    destruct (Z.leb_spec (off + 12) psize) as [Hfit|Hno].
+    + rewrite (rds_eq pd off 12) by lia. cbn [of_opt rbind].
+      assert (Hq : Z.max 0 (psize - off) / 12 = Z.max 0 (psize - (off + 12)) / 12 + 1).
+      { replace (Z.max 0 (psize - off)) with (Z.max 0 (psize - (off + 12)) + 1 * 12) by lia. rewrite Z.div_add by lia. reflexivity. }
+      destruct (IH pd psize (off + 12) dev ts Hp ltac:(lia)) as (ps & Hps & Hn & Hall).
+      { rewrite Nat2Z.inj_succ in Hf. lia. }
+      rewrite Hps. cbn [rbind]. eexists. split; [reflexivity|]. split.
+      * unfold zlen in *. cbn [length]. rewrite Nat2Z.inj_succ. lia.
+      * intros i Hi. destruct i as [|i]; cbn [nth].
+        -- cbn [Z.of_nat]. rewrite Z.mul_0_r, Z.add_0_r. reflexivity.
+        -- cbn [length] in Hi. rewrite (Hall i) by lia. rewrite Nat2Z.inj_succ.
+           replace (off + 12 + 12 * Z.of_nat i) with (off + 12 * Z.succ (Z.of_nat i)) by lia. reflexivity.
+    + exists []. split; [reflexivity|]. split; [|intros i Hi; cbn in Hi; lia].
+      unfold zlen. cbn [length Z.of_nat]. symmetry. apply Z.div_small. lia.
+Qed.
+
+Theorem tecmp_bus buf : bytes_ok buf -> t_accepts buf -> u8 (t_hd buf) 5 = 2 ->
+  let pd := t_pd buf in let psize := zlen buf - 28 in 12 <= psize ->
+  exists ps, tecmp_decode buf = Ok ps /\ zlen ps = (psize - 12) / 12 /\
+    forall i, (i < length ps)%nat ->
+      let e := take 12 (drop (12 + 12 * Z.of_nat i) pd) in
+      nth i ps default_packet =
+        tecmp_packet (u8 (t_hd buf) 1) (u64 (t_hd buf) 16) (be_dec (take 4 e))
+          {| pl_type := 770; pl_data := be_enc 4 (be_dec (take 4 e)) ++ be_enc 4 (be_dec (take 4 (drop 4 e))) ++ zeros 12 ++
+                                        be_enc 4 (be_dec (take 4 (drop 8 e))) ++ zeros 16 |}.
+Proof.
+  intros Hb Hacc Hm pd psize H12.
+  assert (Hpd : zlen pd = psize) by (unfold pd, t_pd, psize; apply zlen_drop; destruct Hacc; lia).
+  t_open buf Hacc. rewrite Hm. cbn [Z.eqb Pos.eqb].
+  fold psize. destruct (Z.ltb_spec psize 12); [lia|].
+  fold (t_pd buf). fold pd. rewrite (rds_eq pd 0 12) by lia. cbn [of_opt rbind].
+  destruct (bus_entries_spec (S (Z.to_nat (psize / 12))) pd psize 12 (u8 (t_hd buf) 1) (u64 (t_hd buf) 16) (eq_sym Hpd) ltac:(lia)) as (ps & Hps & Hn & Hall).
+  { rewrite Nat2Z.inj_succ, Z2Nat.id by (apply Z.div_pos; lia).
+    assert (Z.max 0 (psize - 12) / 12 <= psize / 12) by (apply Z.div_le_mono; lia). lia. }
+  exists ps. split; [exact Hps|]. split; [rewrite Hn; f_equal; lia|exact Hall].
+Qed.
